@@ -60,7 +60,11 @@ class StochasticGame:
         """
         transitions = 0
         for state_transitions in self.transition_list:
-            transitions += len(state_transitions)
+            try:
+                transitions += len(state_transitions)
+            except TypeError:
+                # malformed entry (e.g. None): it is rejected with ValueError when the game is solved
+                pass
         return transitions
 
     def init_states(self):
